@@ -71,6 +71,11 @@ type c08call struct {
 	id     string
 }
 
+type c08Kept struct {
+	id   string
+	list slog.Attrs
+}
+
 type c08env struct {
 	loggers []slog.Logger
 	recs    []*slowRec
@@ -81,6 +86,8 @@ type c08env struct {
 	sharedG gattr
 	sorted  slog.Attr // another shared Group whose members are already in key order
 	sortedG gattr
+	keptMu  sync.Mutex
+	kept    []c08Kept // attribute lists that callers of WriteThru built, passed and kept
 	inline  slog.Attr // a shared Group under the empty key (its members print without a prefix), members out of order
 	inlineG gattr
 	long    string // a value that makes the record longer than the initial buffer of a print context
@@ -230,6 +237,14 @@ func (e *c08env) issue(c c08call) (panicked string) {
 		e.std[c.logger].Print(c.msg) // the std log bridge: a record without attributes of its own
 	case 8:
 		e.sl[c.logger].Info(c.msg) // log/slog on the adapter, no attributes
+	case 11:
+		// an adapter of the application's own: it builds the attribute list, hands it to WriteThru and keeps it
+		own := make(slog.Attrs, 0, 8)
+		own = append(own, slog.NewAttr("a", 1), slog.NewAttr("b", c.id))
+		l.(slog.LogSlogAware).WriteThru(context.Background(), slog.InfoLevel, time.Unix(0, 0), 0, c.msg, own)
+		e.keptMu.Lock()
+		e.kept = append(e.kept, c08Kept{c.id, own})
+		e.keptMu.Unlock()
 	case 10:
 		l.Logit(context.Background(), slog.Level(71+len(c.id)%4), c.msg, args...) // registered by title only
 	case 9:
@@ -259,11 +274,17 @@ func c08Stress(seed uint64, tier string, o c08out) {
 		G := []int{2, 4, 8, 16, 32, 64}[g.intn(6)]
 		N := 30 + g.intn(60)
 		e := c08Setup(g, nLoggers)
+		if round%2 == 1 {
+			// earlier in the process some records were cut short by a value that panics while it is rendered (recovered)
+			for k := 0; k < 3; k++ {
+				encPanicNoise([]string{"l", "c", "j"}[k])
+			}
+		}
 		// the programs
 		progs := make([][]c08call, G)
 		for gi := range progs {
 			for i := 0; i < N; i++ {
-				c := c08call{logger: g.intn(nLoggers), verb: []int{0, 1, 2, 3, 4, 6, 6, 7, 8, 9, 9, 10, 10}[g.intn(13)], msg: c08Msgs[g.intn(len(c08Msgs))], shape: g.intn(9), id: fmt.Sprintf("g%d-c%d", gi, i)}
+				c := c08call{logger: g.intn(nLoggers), verb: []int{0, 1, 2, 3, 4, 6, 6, 7, 8, 9, 9, 10, 10, 11, 11}[g.intn(15)], msg: c08Msgs[g.intn(len(c08Msgs))], shape: g.intn(9), id: fmt.Sprintf("g%d-c%d", gi, i)}
 				if c.msg != "" || c.verb != 4 {
 					c.msg = fmt.Sprintf("call %s. %s", c.id, c.msg)
 				}
@@ -301,6 +322,16 @@ func c08Stress(seed uint64, tier string, o c08out) {
 		for _, p := range panics {
 			o.violate(violation{What: "a log call panicked while other goroutines were logging", Input: desc, Actual: p})
 		}
+		// the lists that callers of WriteThru built and kept are still theirs
+		for _, k := range e.kept {
+			ok := len(k.list) == 2 && k.list[0] != nil && k.list[1] != nil && k.list[0].Key() == "a" && k.list[1].Key() == "b" && fmt.Sprint(k.list[1].Value()) == k.id
+			if !ok {
+				o.violate(violation{What: "an attribute list that the caller of WriteThru built and kept was rewritten after the call returned",
+					Input: map[string]any{"call": k.id, "round": round, "goroutines": G}, Expected: fmt.Sprintf("[a=1 b=%s]", k.id), Actual: fmt.Sprint(k.list)})
+				break
+			}
+		}
+		e.kept = nil
 		// the attribute values the goroutines shared were only read: their member lists are as the caller built them
 		for _, sh := range []struct {
 			a    slog.Attr
@@ -336,8 +367,12 @@ func c08Stress(seed uint64, tier string, o c08out) {
 			want[i], owner[i] = map[string]int{}, map[string]string{}
 		}
 		modelLines := 0
+		alone := 0
 		for _, p := range progs {
 			for _, c := range p {
+				if alone++; alone%40 == 7 && round%2 == 1 {
+					encPanicNoise([]string{"l", "c", "j"}[(alone/40)%3]) // right before a call: what it began stays with it
+				}
 				e.issue(c)
 				w := e.recs[c.logger].take()
 				if len(w) != 1 {
